@@ -148,4 +148,31 @@ theorem challenge_times_short_is_small (c s : List Int) (hc : Tern c) (hsl : s.l
       ∀ i, i < 256 → (VecSem.El T i : K) = VecSem.El c i * VecSem.El s i :=
   small_product c s hc hsl E hE hs
 
+/-! ### the public entry points: a signature returned through the API is `signature` on the framed message (C07), so
+`signing_is_spec_function` applies to it with M′ = the frame -/
+
+theorem mldsa_sign_is_signature (p : Params) (fuel : Nat) (sk msg : List Nat) (ctx : Option (List Nat)) (hedged : Bool) (tape : Tape)
+    (sig : List Nat) (tape' : Tape) (h : mldsa_sign p fuel sk msg ctx hedged tape = .ok (some sig, tape')) :
+    ∃ m, frame_pure msg ctx = some m ∧ signature p fuel m sk hedged tape = .ok (some sig, tape') := by
+  unfold mldsa_sign at h
+  cases hf : frame_pure msg ctx with
+  | none => rw [hf] at h; injection h with h; injection h with h _; cases h
+  | some m => rw [hf] at h; exact ⟨m, rfl, h⟩
+
+theorem mldsa_prehash_sign_is_signature (p : Params) (fuel : Nat) (sk phm : List Nat) (ctx : Option (List Nat)) (hedged : Bool) (ph : PH)
+    (tape : Tape) (sig : List Nat) (tape' : Tape) (h : mldsa_prehash_sign p fuel sk phm ctx hedged ph tape = .ok (some sig, tape')) :
+    ∃ m, frame_prehash phm ctx ph = some m ∧ signature p fuel m sk hedged tape = .ok (some sig, tape') := by
+  unfold mldsa_prehash_sign at h
+  cases hf : frame_prehash phm ctx ph with
+  | none => rw [hf] at h; injection h with h; injection h with h _; cases h
+  | some m => rw [hf] at h; exact ⟨m, rfl, h⟩
+
+theorem dil_sign_is_signature (p : Params) (fuel : Nat) (sk msg sig : List Nat) (h : dil_sign p fuel sk msg = .ok (some sig)) :
+    ∃ tape', signature p fuel msg sk false [] = .ok (some sig, tape') := by
+  unfold dil_sign at h
+  obtain ⟨⟨r, t⟩, hs, h⟩ := bind_eq_ok.mp h
+  simp only at h
+  injection h with h; subst h
+  exact ⟨t, hs⟩
+
 end DV.C05
